@@ -215,18 +215,18 @@ func init() {
 			r.Rule("R01.6", 6, "the dependency graph sees every dependency (verbatim getters, one edge per dependency)")
 			r.Rule("R01.7", 20, "R-KEYLIT: key literals keep every identity component")
 			r.Rule("R01.8", 5, "R10.1 tracking: singletons are stored by setSingleton only")
-			ruleWhoWritesTables(w, r, "R01.1", "", la)
-			ruleResolveSwitch(w, r, "R01.2", "", "")
-			ruleEntryPointsStoreNothing(w, r, "R01.2b")
-			ruleCreateCallSites(w, r, "R01.3")
-			ruleBuildPipeline(w, r, "", "", "", "", "R01.4")
-			ruleSortedCreation(w, r, "R01.4")
-			ruleFamilyFanOut(w, r, "R01.5", "")
-			ruleGraphSeesAllDependencies(w, r, "R01.6")
-			ruleKeyLiterals(w, r, "R01.7")
-			ruleTracking(w, r, "R01.8", "", "")
+			r.Try(func() { ruleWhoWritesTables(w, r, "R01.1", "", la) })
+			r.Try(func() { ruleResolveSwitch(w, r, "R01.2", "", "") })
+			r.Try(func() { ruleEntryPointsStoreNothing(w, r, "R01.2b") })
+			r.Try(func() { ruleCreateCallSites(w, r, "R01.3") })
+			r.Try(func() { ruleBuildPipeline(w, r, "", "", "", "", "R01.4") })
+			r.Try(func() { ruleSortedCreation(w, r, "R01.4") })
+			r.Try(func() { ruleFamilyFanOut(w, r, "R01.5", "") })
+			r.Try(func() { ruleGraphSeesAllDependencies(w, r, "R01.6") })
+			r.Try(func() { ruleKeyLiterals(w, r, "R01.7") })
+			r.Try(func() { ruleTracking(w, r, "R01.8", "", "") })
 			r.Rule("R01.9", 5, "exactly its outputs are what is resolved: createInstance calls the descriptor's own constructor and answers instance registrations with the descriptor's own instance")
-			ruleFunctionIdentity(w, r, "R01.9")
+			r.Try(func() { ruleFunctionIdentity(w, r, "R01.9") })
 		})
 	register("C02",
 		"Structural necessary conditions of 'scoped: one instance per scope, never shared': the scoped cache is written only in the Scoped clause of setInstance, starts as a fresh map in every scope and is reached only through the receiver; the Scoped clause of resolve consults the cache on the resolved key, returns the hit, constructs only on a miss; every success exit of createInstance has passed setInstance; the initializer pass runs once per created scope; the miss-test/fill pair must be atomic (known finding D2: it is not). NOT decided: identity/counts; fairness of retries.",
@@ -241,25 +241,27 @@ func init() {
 			r.Rule("R02.7", 8, "resolution entry points and lookups store nothing themselves")
 			r.Rule("R02.8", 8, "no captive path: the lifetime-validation rules of C07 (a singleton or transient that captures a scoped instance makes scopes share it)")
 			r.Rule("R02.9", 20, "R-KEYLIT: cache keys keep every identity component")
-			ruleWhoWritesTables(w, r, "", "R02.1", la)
-			ruleResolveSwitch(w, r, "", "R02.2", "")
-			ruleCreateStores(w, r, "R02.3")
-			ruleTracking(w, r, "R02.3b", "R02.3b", "")
-			ruleCheckThenAct(w, r, "R02.5", la)
-			ruleInitializersOnce(w, r, "R02.6")
-			ruleEntryPointsStoreNothing(w, r, "R02.7")
+			r.Try(func() { ruleWhoWritesTables(w, r, "", "R02.1", la) })
+			r.Try(func() { ruleResolveSwitch(w, r, "", "R02.2", "") })
+			r.Try(func() { ruleCreateStores(w, r, "R02.3") })
+			r.Try(func() { ruleTracking(w, r, "R02.3b", "R02.3b", "") })
+			r.Try(func() { ruleCheckThenAct(w, r, "R02.5", la) })
+			r.Try(func() { ruleInitializersOnce(w, r, "R02.6") })
+			r.Try(func() { ruleEntryPointsStoreNothing(w, r, "R02.7") })
 			sub := NewReport(r.Prop, r.Tier, w)
 			for _, id := range []string{"R07.1", "R07.2", "R07.3", "R07.4", "R07.5", "R07.6"} {
 				sub.Rule(id, 0, "")
 			}
-			checkC07(w, sub)
+			r.Try(func() { checkC07(w, sub) })
 			for _, o := range sub.Obs {
 				o.Rule = "R02.8"
 				r.Obs = append(r.Obs, o)
 			}
-			ruleKeyLiterals(w, r, "R02.9")
+			r.Try(func() { ruleKeyLiterals(w, r, "R02.9") })
 			r.Rule("R02.10", 1, "no lost-update on an atomically published cache: a Load followed by a Store of the same atomic field runs under a lock or uses compare-and-swap")
-			ruleAtomicRMW(w, r, "R02.10", la)
+			r.Try(func() { ruleAtomicRMW(w, r, "R02.10", la) })
+			r.Rule("R02.11", 1, "a failed construction leaves no trace and may be retried: no error exit of resolve is reachable with state recorded by resolve or its helpers and not retired")
+			r.Try(func() { ruleResolveWritesNothing(w, r, "R02.11") })
 		})
 	register("C03",
 		"Structural necessary conditions of 'transient: a fresh instance for every resolution and injection site': the Transient clause of resolve never consults a cache and every exit comes from a fresh createInstance; the Transient clause of setInstance writes no cache; resolution entry points (including GetGroup) memoise nothing; the invoker, builder and cached analysis records hold no per-call state (record confinement); arguments are resolved one by one per invocation. NOT decided: counts versus number of request sites.",
@@ -270,8 +272,8 @@ func init() {
 			r.Rule("R03.3", 5, "no memoisation in invoker/builder/analysis records (record confinement)")
 			r.Rule("R03.3b", 2, "one resolver call per parameter / field inside the per-invocation loop")
 			r.Rule("R03.4", 8, "resolution entry points and lookups store nothing themselves")
-			ruleResolveSwitch(w, r, "", "", "R03.1")
-			ruleTracking(w, r, "R03.2", "", "R03.2")
+			r.Try(func() { ruleResolveSwitch(w, r, "", "", "R03.1") })
+			r.Try(func() { ruleTracking(w, r, "R03.2", "", "R03.2") })
 			sub := NewReport(r.Prop, r.Tier, w)
 			sub.Rule("R09.1", 0, "")
 			sub.Rule("R09.1u", 0, "")
@@ -280,10 +282,10 @@ func init() {
 				o.Rule = "R03.3"
 				r.Obs = append(r.Obs, o)
 			}
-			ruleArgsPerInvocation(w, r, "R03.3b")
-			ruleEntryPointsStoreNothing(w, r, "R03.4")
+			r.Try(func() { ruleArgsPerInvocation(w, r, "R03.3b") })
+			r.Try(func() { ruleEntryPointsStoreNothing(w, r, "R03.4") })
 			r.Rule("R03.5", 1, "wrappers on the way from resolve to the constructing function never hand a transient request an instance this call did not produce")
-			ruleCreateChain(w, r, "R03.5")
+			r.Try(func() { ruleCreateChain(w, r, "R03.5") })
 		})
 	register("C04",
 		"Structural necessary conditions of wiring fidelity: a function's code pointer is never an identity on its own and createInstance calls descriptor.Constructor of the descriptor being constructed (instances bypass the invoker); group members are resolved and registered in order and no ordered result depends on map iteration; the four struct-field walkers apply the same skip predicates before touching a field, the two resolvers dispatch group/name/plain in the same priority, one Dependency per parameter with identity copied; only the optional tag lets a failed field resolution continue; key literals keep every identity component; family fan-out looks members up under the identity they were registered with (known finding D4). NOT decided: that the right instance value arrives.",
@@ -295,17 +297,17 @@ func init() {
 			r.Rule("R04.5", 1, "only optional fields survive a failed resolution")
 			r.Rule("R04.7", 20, "R-KEYLIT")
 			r.Rule("R04.8", 6, "the graph and the invoker see the same dependencies")
-			ruleFunctionIdentity(w, r, "R04.1")
-			ruleGroupOrder(w, r, "R04.2")
-			ruleFieldFilters(w, r, "R04.3")
-			ruleFamilyFanOut(w, r, "", "R04.4")
-			ruleOptionalOnly(w, r, "R04.5")
-			ruleKeyLiterals(w, r, "R04.7")
-			ruleGraphSeesAllDependencies(w, r, "R04.8")
+			r.Try(func() { ruleFunctionIdentity(w, r, "R04.1") })
+			r.Try(func() { ruleGroupOrder(w, r, "R04.2") })
+			r.Try(func() { ruleFieldFilters(w, r, "R04.3") })
+			r.Try(func() { ruleFamilyFanOut(w, r, "", "R04.4") })
+			r.Try(func() { ruleOptionalOnly(w, r, "R04.5") })
+			r.Try(func() { ruleKeyLiterals(w, r, "R04.7") })
+			r.Try(func() { ruleGraphSeesAllDependencies(w, r, "R04.8") })
 			r.Rule("R04.9", 1, "a descriptor's Constructor is reflect.ValueOf of the value registered, never a value from the shared analysis cache")
-			ruleDescriptorConstructorSource(w, r, "R04.9")
+			r.Try(func() { ruleDescriptorConstructorSource(w, r, "R04.9") })
 			r.Rule("R04.10", 2, "the descriptor list keeps registration order (append, reset, order-preserving delete only)")
-			ruleListOrderPreserved(w, r, "R04.10", NewLockAnalysis(w))
+			r.Try(func() { ruleListOrderPreserved(w, r, "R04.10", NewLockAnalysis(w)) })
 		})
 	register("C05",
 		"Structural necessary conditions of 'cycle detection is exact; resolution terminates': every descriptor is added to the graph, the add turns every dependency into an edge and the getters are verbatim; a checked DetectCycles dominates provider allocation and its error is kept as Cause; providers are allocated only by Build; the whole-graph check starts a search from every node and the search follows every edge; group placeholders are linked to their members before every search; deferred insertion rejects nothing but nil; key literals keep Key and Group. NOT decided: correctness of the DFS and of the reported path on all graphs (value-level).",
@@ -318,16 +320,16 @@ func init() {
 			r.Rule("R05.5", 6, "graph edges = resolution edges")
 			r.Rule("R05.6", 1, "deferred insertion fails only for nil")
 			r.Rule("R05.7", 20, "R-KEYLIT")
-			ruleBuildPipeline(w, r, "R05.1", "R05.1", "", "", "")
-			ruleCausePreserved(w, r, "R05.1c")
-			ruleProviderOnlyFromBuild(w, r, "R05.2")
-			ruleSearchComplete(w, r, "R05.3")
-			ruleGroupLinkGraph(w, r, "R05.4")
-			ruleGraphSeesAllDependencies(w, r, "R05.5")
-			ruleDeferredAddTotal(w, r, "R05.6")
-			ruleKeyLiterals(w, r, "R05.7")
+			r.Try(func() { ruleBuildPipeline(w, r, "R05.1", "R05.1", "", "", "") })
+			r.Try(func() { ruleCausePreserved(w, r, "R05.1c") })
+			r.Try(func() { ruleProviderOnlyFromBuild(w, r, "R05.2") })
+			r.Try(func() { ruleSearchComplete(w, r, "R05.3") })
+			r.Try(func() { ruleGroupLinkGraph(w, r, "R05.4") })
+			r.Try(func() { ruleGraphSeesAllDependencies(w, r, "R05.5") })
+			r.Try(func() { ruleDeferredAddTotal(w, r, "R05.6") })
+			r.Try(func() { ruleKeyLiterals(w, r, "R05.7") })
 			r.Rule("R05.8", 10, "analysis = runtime: the dependency list is derived from exactly the fields/parameters the invoker resolves (sibling agreement of the struct walkers and resolvers)")
-			ruleFieldFilters(w, r, "R05.8")
+			r.Try(func() { ruleFieldFilters(w, r, "R05.8") })
 		})
 	register("C06",
 		"Structural necessary conditions of 'build is deterministic, order-independent and creates dependencies first': group consumers are ordered after members only if group edges exist (R-GROUPLINK) and every descriptor and dependency is in the graph; eager creation walks the sorted slice front to back; graph mutators mark both caches dirty and the sort cache is written only with its flag cleared; lifetime validation fills its table completely before the first check (no verdict depends on registration or map order); the validation steps are unconditional. NOT decided: Kahn's algorithm correctness; isomorphism of object graphs under permutation.",
@@ -338,18 +340,18 @@ func init() {
 			r.Rule("R06.3", 4, "cache freshness of the graph")
 			r.Rule("R06.3c", 1, "sorted-order cache written only with its flag cleared")
 			r.Rule("R06.4", 4, "validation verdicts do not depend on registration order: table complete before checks; every validation step runs on every path")
-			ruleGroupLinkGraph(w, r, "R06.1")
-			ruleBuildPipeline(w, r, "R06.1b", "R06.4", "R06.4", "R06.4", "")
-			ruleGraphSeesAllDependencies(w, r, "R06.1b")
-			ruleSortedCreation(w, r, "R06.2")
-			checkGraphCaches(w, r, "R06.3", "", "R06.3c")
-			ruleLifetimeTableComplete(w, r, "R06.4")
+			r.Try(func() { ruleGroupLinkGraph(w, r, "R06.1") })
+			r.Try(func() { ruleBuildPipeline(w, r, "R06.1b", "R06.4", "R06.4", "R06.4", "") })
+			r.Try(func() { ruleGraphSeesAllDependencies(w, r, "R06.1b") })
+			r.Try(func() { ruleSortedCreation(w, r, "R06.2") })
+			r.Try(func() { checkGraphCaches(w, r, "R06.3", "", "R06.3c") })
+			r.Try(func() { ruleLifetimeTableComplete(w, r, "R06.4") })
 			r.Rule("R06.5", 10, "analysis = runtime (sibling agreement of the struct walkers and resolvers)")
-			ruleFieldFilters(w, r, "R06.5")
+			r.Try(func() { ruleFieldFilters(w, r, "R06.5") })
 			r.Rule("R06.6", 2, "the descriptor list keeps registration order (append, reset, order-preserving delete only)")
-			ruleListOrderPreserved(w, r, "R06.6", NewLockAnalysis(w))
+			r.Try(func() { ruleListOrderPreserved(w, r, "R06.6", NewLockAnalysis(w)) })
 			r.Rule("R06.7", 1, "the degree recomputation counts every edge")
-			ruleDegreeCountsEveryEdge(w, r, "R06.7")
+			r.Try(func() { ruleDegreeCountsEveryEdge(w, r, "R06.7") })
 		})
 	register("C07",
 		"Structural necessary conditions of 'no captive dependencies': a checked lifetime validation dominates provider allocation; only Lifetime==Scoped exempts a dependent and no attribute of a dependency (such as optional) exempts it; the table is complete before the first check, every registration is checked, the dependency loop is left only by continue or by returning the conflict; group dependencies are checked against every member by (Type, Group), plain ones by (Type, Key); the conflict is raised exactly on ==Scoped; derived descriptors copy Lifetime and Dependencies. NOT decided: the 'no false rejection' direction for all sets.",
